@@ -241,6 +241,7 @@ class Gen:
                 o = self.gen_objective(rng.choice(okinds))
                 if o is not None:
                     spec["objectives"].append(o)
+        bound_objectives(spec)
         return spec
 
     def _flat(self, rid):
@@ -524,6 +525,8 @@ class Gen:
         rng = self.rng
         spec = self.spec
         o = {"kind": kind}
+        if spec["objectives"] and objective_direction(spec["objectives"][0]["kind"]) != objective_direction(kind):
+            return None  # several objectives: same direction only (C07)
         if any(x["kind"] == kind for x in spec["objectives"]) and kind not in ("MaximizeIndicator", "MinimizeIndicator"):
             return None
         if kind == "MaximizeResourceUtilization":
@@ -556,6 +559,22 @@ class Gen:
             o["indicator"] = rng.choice(cands)["id"]
             o["weight"] = rng.choice([1, 1, 2, 3])
         return o
+
+
+MAX_OBJECTIVES = {"MaximizeResourceUtilization", "TasksStartLatest", "MaximizeMaxBufferLevel", "MaximizeIndicator"}
+
+
+def objective_direction(kind):
+    return "max" if kind in MAX_OBJECTIVES else "min"
+
+
+def bound_objectives(spec):
+    """C07 speaks about bounded objectives: without a horizon, objectives that reward late
+    or long schedules are unbounded and the incremental loop would never end."""
+    if spec.get("horizon") is None and any(o["kind"] in ("TasksStartLatest", "MaximizeIndicator", "MinimizeIndicator", "MaximizeMaxBufferLevel",
+                                                        "MaximizeResourceUtilization") for o in spec.get("objectives", [])):
+        spec["horizon"] = est_horizon(spec) + 1
+    return spec
 
 
 def has_nonlinear(spec):
